@@ -502,6 +502,10 @@ func (c *Conn) Parse(data []byte) (retErr error) {
 					if fin {
 						message = c.message
 						c.message = nil
+						if message == nil {
+							// an empty message is a message too.
+							message = allocator.Malloc(0)
+						}
 						if c.compress && message != nil {
 							var pb *[]byte
 							var rc io.ReadCloser
